@@ -34,6 +34,8 @@ P256N  == Hx!ToBytes("ffffffff00000000ffffffffffffffffbce6faada7179e84f3b9cac2fc
 P256Gx == Hx!ToBytes("6b17d1f2e12c4247f8bce6e563a440f277037d812deb33a0f4a13945d898c296")
 P256Gy == Hx!ToBytes("4fe342e2fe1a7f9b8ee7eb4a7c0f9e162bce33576b315ececbb6406837bf51f5")
 E256 == INSTANCE EC WITH P <- P256P, A <- P256A, B <- P256B, N <- P256N, Gx <- P256Gx, Gy <- P256Gy, CLen <- 32
+P384N == Hx!ToBytes("ffffffffffffffffffffffffffffffffffffffffffffffffc7634d81f4372ddf581a0db248b0a77aecec196accc52973")            \* FIPS 186-4 D.1.2.4
+P521N == Hx!ToBytes("01fffffffffffffffffffffffffffffffffffffffffffffffffffffffffffffffffa51868783bf2f966b7fcc0148f709a5d03bb5c9b8899c47aebb6fb71e91386409")   \* D.1.2.5
 SM9N == Hx!ToBytes("b640000002a3a6f1d603ab4ff58ec74449f2934b18ea8beee56ee19cd69ecf25")     \* GM/T 0044.5 order of G1, G2, GT
 (* FIPS 186-4 D.1.2.3 base point is on the curve; RFC 6979 A.2.5 key pair *)
 ASSUME E256!OnCurve(E256!G)
@@ -42,31 +44,35 @@ ASSUME E256!Mul(Hx!ToBytes("c9afa9d845ba75166b5c215767b1d6934e50c3db36e89b127b8a
            Hx!ToBytes("7903fe1008b8bc99a41ae9e95628bc64f2f1b20c2d7e9f5177a3c294d4462299")>>
 
 (* ------------------------------------------------------------------ scalars *)
-NOf(kind) == IF kind \in {"sm2", "ecdh"} THEN S!N ELSE IF kind = "ecdsa" THEN P256N ELSE SM9N
+NOf(kind) == CASE kind \in {"sm2", "ecdh"} -> S!N [] kind = "ecdsa" -> P256N [] kind = "ecdsa384" -> P384N [] kind = "ecdsa521" -> P521N [] OTHER -> SM9N
+SLen(kind) == CASE kind = "ecdsa384" -> 48 [] kind = "ecdsa521" -> 66 [] OTHER -> 32          \* octets of an encoded scalar
 F32(x) == BN!ToFixed(x, 32)
 ClsSeq == <<"one", "nMinus2", "hiByteZero", "loByteZero", "hiBitSet", "random1", "random2">>
 AllClsSeq == ClsSeq \o <<"nMinus1", "zero", "n", "nPlus1", "max", "wide", "negative", "rsa2048", "rsa1024">>
 IndexOf(seq, x) == CHOOSE i \in 1..Len(seq) : seq[i] = x
-Rnd32(label) == SubSeq(R!Bytes(Seed, label, 32), 1, 32)
-(* 32-byte big-endian scalar of a class (33 bytes for "wide"); classes that depend on the group order take it from the kind *)
+(* big-endian scalar of a class, SLen(kind) octets (one more for "wide"); classes that depend on the group order take it from the kind. *)
+(* P-521: the top octet of the order is 01, so the first octet of a pseudo-random scalar is 01 and the second below ff.                  *)
 Scalar(kind, cls) ==
   LET n == NOf(kind)
-      b == Rnd32(1400 + IndexOf(AllClsSeq, cls))
-  IN CASE cls = "one"        -> F32(<<1>>)
-       [] cls = "nMinus2"    -> F32(BN!Sub(n, <<2>>))
-       [] cls = "nMinus1"    -> F32(BN!Sub(n, <<1>>))
-       [] cls = "hiByteZero" -> <<0, (b[2] % 255) + 1>> \o SubSeq(b, 3, 32)          \* leading zero byte
-       [] cls = "loByteZero" -> <<(b[1] % 127) + 1>> \o SubSeq(b, 2, 31) \o <<0>>
-       [] cls = "hiBitSet"   -> <<128 + (b[1] % 48)>> \o SubSeq(b, 2, 32)             \* DER INTEGER needs a sign octet; below every order
-       [] cls \in {"random1", "random2", "negative"} -> <<(b[1] % 127) + 1>> \o SubSeq(b, 2, 32)
-       [] cls = "zero"       -> By!Zeros(32)
-       [] cls = "n"          -> F32(n)
-       [] cls = "nPlus1"     -> F32(BN!Add(n, <<1>>))
-       [] cls = "max"        -> By!Rep(255, 32)
-       [] cls = "wide"       -> <<1>> \o F32(<<5>>)                                   \* 2^256 + 5
+      L == SLen(kind)
+      b == SubSeq(R!Bytes(Seed, 1400 + IndexOf(AllClsSeq, cls), L), 1, L)
+      FL(x) == BN!ToFixed(x, L)
+      top(v) == IF kind = "ecdsa521" THEN <<1, b[2] % 255>> ELSE <<v, b[2]>>
+  IN CASE cls = "one"        -> FL(<<1>>)
+       [] cls = "nMinus2"    -> FL(BN!Sub(n, <<2>>))
+       [] cls = "nMinus1"    -> FL(BN!Sub(n, <<1>>))
+       [] cls = "hiByteZero" -> <<0, (b[2] % 255) + 1>> \o SubSeq(b, 3, L)           \* leading zero byte
+       [] cls = "loByteZero" -> top((b[1] % 127) + 1) \o SubSeq(b, 3, L - 1) \o <<0>>
+       [] cls = "hiBitSet"   -> top(128 + (b[1] % 48)) \o SubSeq(b, 3, L)             \* DER INTEGER needs a sign octet; below every order
+       [] cls \in {"random1", "random2", "negative"} -> top((b[1] % 127) + 1) \o SubSeq(b, 3, L)
+       [] cls = "zero"       -> By!Zeros(L)
+       [] cls = "n"          -> FL(n)
+       [] cls = "nPlus1"     -> FL(BN!Add(n, <<1>>))
+       [] cls = "max"        -> By!Rep(255, L)
+       [] cls = "wide"       -> <<1>> \o FL(<<5>>)                                    \* 2^256 + 5
 (* the valid classes really are valid and the invalid ones invalid, on the definitions *)
-InRange(kind, d) == ~BN!IsZero(d) /\ BN!Le(d, BN!Sub(NOf(kind), IF kind = "ecdsa" THEN <<1>> ELSE <<2>>))
-ASSUME \A kind \in {"sm2", "ecdsa", "sm9sm"} : /\ \A c \in ValidCls(kind) : InRange(kind, Scalar(kind, c))
+InRange(kind, d) == ~BN!IsZero(d) /\ BN!Le(d, BN!Sub(NOf(kind), IF kind \in EcdsaKinds THEN <<1>> ELSE <<2>>))
+ASSUME \A kind \in {"sm2", "ecdsa", "ecdsa384", "ecdsa521", "sm9sm"} : /\ \A c \in ValidCls(kind) : InRange(kind, Scalar(kind, c))
                                                /\ \A c \in BadCls(kind) \ {"negative"} : ~InRange(kind, Scalar(kind, c))
 
 (* public points dictated by the specification, computed once (zero-arity definitions are evaluated once) *)
@@ -94,13 +100,14 @@ HexSeq(ss) == SubSeq([i \in 1..Len(ss) |-> Hx!FromBytes(ss[i])], 1, Len(ss))
 
 (* ------------------------------------------------------------------ scenario enumeration *)
 KindSeq8 == <<"sm2", "ecdh", "ecdsa", "rsa", "sm9sm", "sm9su", "sm9em", "sm9eu">>
-KindIdx(kind) == IndexOf(<<"sm2", "ecdh", "ecdsa", "rsa", "sm9sm", "sm9su", "sm9em", "sm9eu", "sm9smp", "sm9emp">>, kind)
+KindIdx(kind) == IndexOf(<<"sm2", "ecdh", "ecdsa", "rsa", "sm9sm", "sm9su", "sm9em", "sm9eu", "sm9smp", "sm9emp", "ecdsa384", "ecdsa521">>, kind)
+BigEc == {"ecdsa384", "ecdsa521"}
 ClsAt(kind, j) == IF kind = "rsa" THEN (IF j % 2 = 0 THEN "rsa2048" ELSE "rsa1024") ELSE ClsSeq[(j % 7) + 1]
 KeyIdx(k) == KindIdx(k.kind) * 16 + IndexOf(AllClsSeq, k.cls)
 SaltSeq == <<1, 8, 16, 33>>
 IterSeq == <<1, 2, 3, 17>>
 ScryptSeq == << <<2, 1, 1>>, <<4, 1, 1>>, <<16, 2, 1>>, <<8, 1, 2>> >>
-InnerOf(kind) == IF kind \in {"sm2", "ecdsa"} THEN "sec1" ELSE IF kind = "rsa" THEN "pkcs1" ELSE "pkcs8"
+InnerOf(kind) == IF kind \in {"sm2"} \cup EcdsaKinds THEN "sec1" ELSE IF kind = "rsa" THEN "pkcs1" ELSE "pkcs8"
 SweepN == IF Q THEN 300 ELSE 1024
 
 (* a scheme: <<pbes, cipher, kdf, sid>> *)
@@ -132,8 +139,8 @@ CfcaC(pwc, sweepOK) == [C0 EXCEPT !.fmt = "CFCA", !.pwc = pwc, !.sweep = IF swee
 PlainConts(k) ==
   LET kind == k.kind
   IN (IF kind \in Pkcs8Kinds THEN {PlainC("PKCS8", "pkcs8"), PlainC("PKCS8", "smx509")} ELSE {})
-     \cup (IF kind = "sm2" THEN {PlainC("SEC1", "direct"), PlainC("SEC1", "typed")} ELSE IF kind = "ecdsa" THEN {PlainC("SEC1", "direct")} ELSE {})
-     \cup (IF kind \in {"sm2", "ecdh", "ecdsa", "rsa"} THEN {PlainC("PKIX", "-")} ELSE {})
+     \cup (IF kind = "sm2" THEN {PlainC("SEC1", "direct"), PlainC("SEC1", "typed")} ELSE IF kind \in EcdsaKinds THEN {PlainC("SEC1", "direct")} ELSE {})
+     \cup (IF kind \in {"sm2", "ecdh", "rsa"} \cup EcdsaKinds THEN {PlainC("PKIX", "-")} ELSE {})
      \cup (IF kind \in {"sm2", "ecdh"} THEN {PlainC("RAW", "-")} ELSE {})
      \cup (IF kind \in Sm9Kinds THEN {PlainC("SM9asn1", "-")} ELSE {})
      \cup (IF kind \in Sm9Points THEN {PlainC("SM9raw", "-"), PlainC("SM9rawc", "-"), PlainC("SM9asn1c", "-")} ELSE {})
@@ -151,6 +158,7 @@ QuickEnc(k) ==
   \cup {EncC(SmSch(j), k, j % 4 = 0) : j \in {x \in 0..9 : RowKey(x + 3, x) = k}}
   \cup {EncC(P1Sch(i), k, TRUE) : i \in {x \in 0..5 : RowKey(x + 5, 2 * x + 1) = k}}
   \cup (IF RowKey(1, 5) = k THEN {EncC(DefSch, k, FALSE)} ELSE {})
+  \cup (IF k.kind \in BigEc THEN {EncC(Pbes2Sch((KeyIdx(k) + Seed) % 12, (3 * KeyIdx(k) + Seed) % 10), k, k.cls = "hiByteZero")} ELSE {})     \* P-384 / P-521: one row per key
 ThoroughEnc(k) ==
   {EncC(Pbes2Sch(ij[1], ij[2]), k, k.cls \in {"random1", "rsa1024"}) : ij \in (0..11) \X (0..9)}
   \cup {EncC(SmSch(j), k, k.cls \in {"random1", "rsa1024"}) : j \in 0..9}
@@ -196,6 +204,8 @@ TamperConts(k) ==
          {PlainC("PKCS8", "pkcs8"), PlainC("PKIX", "-"), TP(Pbes2Sch(5, 2))} \cup (IF Q THEN {} ELSE {TP(Pbes2Sch(1, 7)), [PemC("aes128", k, FALSE) EXCEPT !.pwc = "ascii8"]})
     [] k = [kind |-> "rsa", cls |-> "rsa2048"] -> IF Q THEN {} ELSE {PlainC("PKCS8", "pkcs8"), TP(Pbes2Sch(8, 2))}
     [] k = [kind |-> "ecdsa", cls |-> "random1"] -> {PlainC("PKCS8", "pkcs8"), PlainC("SEC1", "direct")} \cup (IF Q THEN {} ELSE {PlainC("PKIX", "-"), TP(Pbes2Sch(7, 4))})
+    [] k \in {[kind |-> "ecdsa521", cls |-> "hiByteZero"], [kind |-> "ecdsa384", cls |-> "random1"]} ->
+         {PlainC("PKCS8", "pkcs8"), PlainC("SEC1", "direct")} \cup (IF Q THEN {} ELSE {PlainC("PKIX", "-"), TP(Pbes2Sch(1, 7))})
     [] k = [kind |-> "ecdh", cls |-> "random1"] -> {PlainC("PKCS8", "pkcs8"), PlainC("PKIX", "-")} \cup (IF Q THEN {} ELSE {PlainC("RAW", "-"), TP(Pbes2Sch(2, 7))})
     [] k.kind \in Sm9Kinds /\ k.cls = "random1" ->
          {c \in PlainConts(k) : c.papi # "smx509"}
@@ -206,9 +216,10 @@ PlainLen(k, fmt) ==
   CASE fmt = "RAW" -> 32 [] fmt = "SM9rawc" -> IF k.kind \in {"sm9smp", "sm9eu"} THEN 65 ELSE 33
     [] fmt = "SM9raw" -> IF k.kind \in {"sm9smp", "sm9eu"} THEN 129 ELSE 65
     [] fmt \in {"SM9asn1", "SM9asn1c"} -> IF k.kind \in Sm9Master THEN 35 ELSE IF k.kind \in {"sm9smp", "sm9eu"} THEN 133 ELSE 68
-    [] fmt = "PKIX" -> IF k.cls = "rsa2048" THEN 294 ELSE IF k.cls = "rsa1024" THEN 162 ELSE 91
-    [] fmt = "SEC1" -> 121
-    [] OTHER -> CASE k.cls = "rsa2048" -> 1220 [] k.cls = "rsa1024" -> 640 [] k.kind \in {"sm9sm", "sm9su", "sm9eu"} -> 230 [] OTHER -> 140     \* PKCS8
+    [] fmt = "PKIX" -> CASE k.cls = "rsa2048" -> 294 [] k.cls = "rsa1024" -> 162 [] k.kind = "ecdsa384" -> 120 [] k.kind = "ecdsa521" -> 158 [] OTHER -> 91
+    [] fmt = "SEC1" -> CASE k.kind = "ecdsa384" -> 167 [] k.kind = "ecdsa521" -> 223 [] OTHER -> 121
+    [] OTHER -> CASE k.cls = "rsa2048" -> 1220 [] k.cls = "rsa1024" -> 640 [] k.kind \in {"sm9sm", "sm9su", "sm9eu"} -> 230
+                  [] k.kind = "ecdsa384" -> 185 [] k.kind = "ecdsa521" -> 241 [] OTHER -> 140     \* PKCS8
 RegionLen(k, c, region) ==
   CASE region = "any" -> (CASE c.fmt = "PKCS8enc" -> PlainLen(k, "PKCS8") + 125
                             [] c.fmt = "PEMenc"   -> PlainLen(k, IF c.inner = "sec1" THEN "SEC1" ELSE "PKCS8") + 32
